@@ -458,7 +458,7 @@ func c19GenVal(ctx *Ctx, depth int) cty.Value {
 		}
 		return v
 	}
-	t := genTy(r, depth, TyOpts{Dyn: true})
+	t := genTy(r, depth, TyOpts{Dyn: true, Capsule: r.Intn(6) == 0})
 	return genVal(r, t, depth, c19ValOpts)
 }
 
